@@ -17,7 +17,9 @@
     C02_four_refusal_band            without `SDich`: answered ⇒ `Resolves`, and `SMargin` ⇒ answered, for all
                                      four — what is undecided is exactly the band between the two
     C02_adj_svd_hyp_of_gap, C02_net_svd_hyp_of_gap, C02_adj_hyp_svd_iff_free
-                                     `SolverHyp .svd` (definitions unchanged — they still spell `SvdCert`)
+                                     `SolverHyp .svd` (definitions unchanged — they still spell `SvdCert`; kept
+                                     in round 8, see `Props/C01/InputGap.lean` for why, where `InputGap` gives
+                                     `SolverHyp` for all four algorithms and every façade theorem gets a `_gap` form)
                                      DERIVED from `RegOK ∧ SingGap` on the original `(A, P)`: every façade theorem
                                      taking `SolverHyp` (`C02_same_net`, `C02_same_adj`, `C03_net_cofactors`,
                                      `C03_adj_cofactors`, `C08_net_datum`, `C09_net_*`) holds for svd under the
